@@ -342,7 +342,12 @@ where
 
                 let mut info_hashes_by_worker: BTreeMap<usize, Vec<InfoHash>> = BTreeMap::new();
 
-                for info_hash in info_hashes.into_iter() {
+                // Limit number of info hashes here, since limiting it in each
+                // swarm worker would make the total number of torrents in the
+                // response depend on the number of swarm workers
+                let max_scrape_torrents = self.config.protocol.max_scrape_torrents;
+
+                for info_hash in info_hashes.into_iter().take(max_scrape_torrents) {
                     let info_hashes = info_hashes_by_worker
                         .entry(calculate_request_consumer_index(&self.config, info_hash))
                         .or_default();
